@@ -856,7 +856,7 @@ func (fc *FnCtx) lazyCellInit(st *State, k cellKey) (Val, bool) {
 	}
 	switch v := k.v.(type) {
 	case string:
-		if strings.HasPrefix(v, "sent:") || strings.HasPrefix(v, "closed:") {
+		if strings.HasPrefix(v, "sent:") || strings.HasPrefix(v, "closed:") || strings.HasPrefix(v, "recvd:") {
 			return intLit(0), true
 		}
 		if strings.HasPrefix(v, "ctxdone:") || strings.HasPrefix(v, "called:") {
@@ -1343,11 +1343,22 @@ func (fc *FnCtx) havocLoop(fr *Frame, st *State, li *loopInfo) {
 			if ci := fc.chanInvFor(x.Chan); ci != nil {
 				special[cellKey{0, "sent:" + ci.Key}] = true
 			}
+		case *ssa.UnOp:
+			if x.Op == token.ARROW {
+				if k := fc.recvKey(x.X); k != "" {
+					special[cellKey{0, "recvd:" + k}] = true
+				}
+			}
 		case *ssa.Select:
 			for _, s := range x.States {
 				if s.Dir == types.SendOnly {
 					if ci := fc.chanInvFor(s.Chan); ci != nil {
 						special[cellKey{0, "sent:" + ci.Key}] = true
+					}
+				} else {
+					// the receive counter of a channel read inside the loop becomes unknown (and only grows)
+					if k := fc.recvKey(s.Chan); k != "" {
+						special[cellKey{0, "recvd:" + k}] = true
 					}
 				}
 			}
@@ -1511,6 +1522,15 @@ func (fc *FnCtx) havocLoop(fr *Frame, st *State, li *loopInfo) {
 				if old, has := st.cells[k].(Term); has {
 					st.cells[k] = fc.fresh("visited", old.Sort)
 				}
+			}
+			if strings.HasPrefix(name, "recvd:") {
+				old, has := st.cells[k].(Term)
+				if !has {
+					old = intLit(0)
+				}
+				n := fc.fresh("recvcnt", SInt)
+				fc.assume(st, tGe(n, old))
+				st.cells[k] = n
 			}
 			if strings.HasPrefix(name, "sent:") {
 				// send counters only grow
